@@ -1216,6 +1216,79 @@ func (e *absEnv) stdCall(fr *absFrame, name string, args []aval, depth int) (ava
 			return astr(fmt.Sprintf("%d", int64(v))), true
 		}
 	}
+	if strings.HasPrefix(base, "(*sync.Map).") {
+		// a sync.Map is modelled as an ordinary map held by the object the receiver points to (single-threaded
+		// evaluation: the abstraction decides what the code does to the registry, not how it is synchronised)
+		p, ok := args[0].(aptr)
+		if !ok {
+			return nil, false
+		}
+		slot := joinPath(p.path, "·syncmap")
+		m, have := p.obj.f[slot].(amap)
+		if !have {
+			m = amap{&amapData{vals: map[string]aval{}, keys: map[string]aval{}}}
+			p.obj.f[slot] = m
+		}
+		unwrap := func(v aval) aval { return v }
+		switch strings.TrimPrefix(base, "(*sync.Map).") {
+		case "Store":
+			k, ok := keyOf(ifaceVal(args[1]))
+			if !ok {
+				return nil, false
+			}
+			m.m.vals[k], m.m.keys[k] = args[2], args[1]
+			return atuple{}, true
+		case "Load":
+			k, ok := keyOf(ifaceVal(args[1]))
+			if !ok {
+				return nil, false
+			}
+			if v, ok := m.m.vals[k]; ok {
+				return atuple{unwrap(v), abool(true)}, true
+			}
+			return atuple{anil{}, abool(false)}, true
+		case "LoadOrStore":
+			k, ok := keyOf(ifaceVal(args[1]))
+			if !ok {
+				return nil, false
+			}
+			if v, ok := m.m.vals[k]; ok {
+				return atuple{v, abool(true)}, true
+			}
+			m.m.vals[k], m.m.keys[k] = args[2], args[1]
+			return atuple{args[2], abool(false)}, true
+		case "Delete":
+			k, ok := keyOf(ifaceVal(args[1]))
+			if !ok {
+				return nil, false
+			}
+			delete(m.m.vals, k)
+			delete(m.m.keys, k)
+			return atuple{}, true
+		case "Range":
+			f, ok := args[1].(afunc)
+			if !ok {
+				return nil, false
+			}
+			var ks []string
+			for k := range m.m.vals {
+				ks = append(ks, k)
+			}
+			sort.Strings(ks)
+			for _, k := range ks {
+				v, still := m.m.vals[k]
+				if !still {
+					continue
+				}
+				res := e.call(f.fn, []aval{m.m.keys[k], v}, f.free, depth+1)
+				if b, ok := res.(abool); ok && !bool(b) {
+					break
+				}
+			}
+			return atuple{}, true
+		}
+		return nil, false
+	}
 	if strings.HasPrefix(base, "sync/atomic.") {
 		p, ok := args[0].(aptr)
 		if !ok {
@@ -1273,4 +1346,13 @@ func strIndexAt(s aval, pos aval) (aval, bool) {
 		return astrv{[]atom{{sym: a.sym + "[0]", byte1: true, lower: a.lower}}}, true
 	}
 	return aint(a.lit[off]), true
+}
+
+
+// ifaceVal: the dynamic value of an interface value (map keys of type interface{} are compared by it).
+func ifaceVal(v aval) aval {
+	if i, ok := v.(aiface); ok {
+		return i.val
+	}
+	return v
 }
